@@ -1,13 +1,731 @@
-//! probe (temporary)
-use emmylua_formatter::{LuaFormatConfig, SourceText, reformat_lua_code};
-use emmylua_parser::{LuaLanguageLevel, LuaParser, ParserConfig};
+//! C05 / C06 harness: the formatter (IR builder + printer).
+//!   c05 corr   --seed S --n N --ngen G --maxir B   JSON lines: real IRs (dump_ir) with Rust's output, and generated
+//!                                                   IRs printed by the real Printer (print_ir), for the Coq model
+//!   c05 search --seed S --n N [--prop C05|C06]     JSON lines: violations of the property oracles + summary
+//!   c05 one    --file F [--cfg JSON]               replay one input (prints output, pass 2, violations)
+//!   c05 align  --seed S --n N                      generated doc blocks with known columns + the formatted block (C06 tie)
+use emmylua_formatter::{LuaFormatConfig, SourceText, reformat_lua_code, verif};
+use serde_json::{Value, json};
+use std::collections::{BTreeMap, HashSet};
+use vh_common::{Args, Rng, guarded};
+use vh_fmt::fmtgen::*;
+
+fn fmt(text: &str, cfg: &LuaFormatConfig) -> Result<String, String> {
+    guarded(|| reformat_lua_code(&SourceText { text, level: LEVEL }, cfg))
+}
+
+// ------------------------------------------------------------------------------------------ oracle
+
+#[derive(Clone, Debug)]
+struct Viol {
+    prop: &'static str,
+    signature: String,
+    what: String,
+}
+
+/// C05 + C06 oracles for one (text, config); `want` filters the property
+fn check(text: &str, cfg: &LuaFormatConfig, want: &str) -> (Vec<Viol>, bool) {
+    let mut out = Vec::new();
+    let tree = parse(text);
+    let valid = !tree.has_syntax_errors();
+    let o1 = match fmt(text, cfg) {
+        Ok(o) => o,
+        Err(e) => {
+            out.push(Viol { prop: "C05", signature: "format-panic".into(), what: format!("formatter panicked: {e}") });
+            return (out, valid);
+        }
+    };
+    if !valid {
+        if o1 != text && want != "C06" {
+            out.push(Viol {
+                prop: "C05",
+                signature: "errors-not-returned-unchanged".into(),
+                what: "input has syntax errors but the formatter changed it".into(),
+            });
+        }
+        return (out, valid);
+    }
+    let tree2 = parse(&o1);
+    if want != "C06" {
+        let flags = NormFlags::of(cfg);
+        let c1 = canon(&tree, &flags);
+        let c2 = canon(&tree2, &flags);
+        let glued = if tree2.has_syntax_errors() || c1.tokens != c2.tokens { glued_tokens(text, &o1, &c1.tokens, &c2.tokens) } else { None };
+        if let Some(sig) = glued {
+            let i = c1.tokens.iter().zip(c2.tokens.iter()).take_while(|(a, b)| a.text == b.text).count();
+            out.push(Viol {
+                prop: "C05",
+                signature: sig,
+                what: format!(
+                    "the output has the same characters but different tokens (two tokens glued or one split): source tokens {:?} {:?}, output token {:?}",
+                    c1.tokens.get(i).map(|t| t.text.clone()), c1.tokens.get(i + 1).map(|t| t.text.clone()), c2.tokens.get(i).map(|t| t.text.clone())
+                ),
+            });
+        } else if tree2.has_syntax_errors() {
+            let e = tree2.get_errors().iter().find(|e| e.kind == emmylua_parser::LuaParseErrorKind::SyntaxError);
+            let msg = e.map(|e| e.message.clone()).unwrap_or_default();
+            out.push(Viol {
+                prop: "C05",
+                signature: format!("output-syntax-error:{}", msg_class(&msg)),
+                what: format!("formatted output has a syntax error: {msg}"),
+            });
+        } else {
+            if c1.tokens != c2.tokens {
+                let i = c1.tokens.iter().zip(c2.tokens.iter()).take_while(|(a, b)| a == b).count();
+                let a = c1.tokens.get(i);
+                let b = c2.tokens.get(i);
+                // classify: lost / added / changed
+                let (class, kind) = match (a, b) {
+                    (Some(a), Some(b)) => {
+                        if c1.tokens.get(i + 1) == Some(b) {
+                            ("lost", a.kind.clone())
+                        } else if c2.tokens.get(i + 1) == Some(a) {
+                            ("added", b.kind.clone())
+                        } else {
+                            ("changed", a.kind.clone())
+                        }
+                    }
+                    (Some(a), None) => ("lost", a.kind.clone()),
+                    (None, Some(b)) => ("added", b.kind.clone()),
+                    (None, None) => ("changed", "?".into()),
+                };
+                out.push(Viol {
+                    prop: "C05",
+                    signature: format!("code-token-{class}:{kind}"),
+                    what: format!(
+                        "code token #{i} differs after formatting: source {:?}, output {:?}",
+                        a.map(|t| t.text.clone()),
+                        b.map(|t| t.text.clone())
+                    ),
+                });
+            }
+            // comments: the concatenated text (blanks removed) and the concatenated node structure must be the same
+            // (two comment blocks may merge into one node when blank lines between them are removed)
+            let t1: String = c1.comments.iter().map(|c| c.text_nb.as_str()).collect();
+            let t2: String = c2.comments.iter().map(|c| c.text_nb.as_str()).collect();
+            if t1 != t2 {
+                let mut k = t1.chars().zip(t2.chars()).take_while(|(x, y)| x == y).count();
+                // the source comment holding the first differing character
+                let mut which = None;
+                for c in &c1.comments {
+                    let n = c.text_nb.chars().count();
+                    if k < n {
+                        which = Some(c);
+                        break;
+                    }
+                    k -= n;
+                }
+                let (ctx, line) = match which {
+                    Some(c) => (reduce_ctx(&comment_context(&c.raw, k)), nth_nonblank_line(&c.raw, k)),
+                    None => ("after-last-comment".to_string(), String::new()),
+                };
+                out.push(Viol {
+                    prop: "C05",
+                    signature: format!("comment-text:{ctx}"),
+                    what: format!("comment text changed at {:?} (source comments {:?}, output comments {:?})", line,
+                                  clip(&c1.comments.iter().map(|c| c.raw.clone()).collect::<Vec<_>>().join("\u{23ce}")),
+                                  clip(&c2.comments.iter().map(|c| c.raw.clone()).collect::<Vec<_>>().join("\u{23ce}"))),
+                });
+            } else {
+                // two adjacent description blocks that merge into one (a blank line between them was removed) are the same
+                // structure: consecutive DocDescription entries count once
+                let mut s1: Vec<&String> = c1.comments.iter().flat_map(|c| c.shape.iter()).collect();
+                let mut s2: Vec<&String> = c2.comments.iter().flat_map(|c| c.shape.iter()).collect();
+                s1.dedup_by(|a, b| a.as_str() == "DocDescription" && b.as_str() == "DocDescription");
+                s2.dedup_by(|a, b| a.as_str() == "DocDescription" && b.as_str() == "DocDescription");
+                if s1 != s2 {
+                    let k = s1.iter().zip(s2.iter()).take_while(|(x, y)| x == y).count();
+                    out.push(Viol {
+                        prop: "C05",
+                        signature: format!(
+                            "comment-structure:{}->{}",
+                            kind_class(s1.get(k).map(|s| s.as_str()).unwrap_or("end")),
+                            kind_class(s2.get(k).map(|s| s.as_str()).unwrap_or("end"))
+                        ),
+                        what: format!("comments parse to a different structure (source comments {:?}, output comments {:?})",
+                                      clip(&c1.comments.iter().map(|c| c.raw.clone()).collect::<Vec<_>>().join("\u{23ce}")),
+                                      clip(&c2.comments.iter().map(|c| c.raw.clone()).collect::<Vec<_>>().join("\u{23ce}"))),
+                    });
+                }
+            }
+        }
+    }
+    if want != "C05" {
+        match fmt(&o1, cfg) {
+            Err(e) => out.push(Viol { prop: "C06", signature: "format-panic-pass2".into(), what: format!("second pass panicked: {e}") }),
+            Ok(o2) => {
+                if o2 != o1 {
+                    let k = o1.bytes().zip(o2.bytes()).take_while(|(a, b)| a == b).count();
+                    let chain = context_at(&tree2, k);
+                    let (l1, l2) = first_diff_line(&o1, &o2);
+                    out.push(Viol {
+                        prop: "C06",
+                        signature: format!("not-idempotent:{}:{}", idem_where(&chain), idem_how(&o1, &o2)),
+                        what: format!("second pass changes the output: {:?} becomes {:?}", l1, l2),
+                    });
+                }
+            }
+        }
+    }
+    (out, valid)
+}
+
+fn clip(s: &str) -> String {
+    s.chars().take(300).collect()
+}
+
+/// the line of `raw` holding its k-th non-blank character
+fn nth_nonblank_line(raw: &str, k: usize) -> String {
+    let mut seen = 0usize;
+    for line in raw.lines() {
+        let n = line.chars().filter(|c| !is_blank(*c)).count();
+        if k < seen + n {
+            return line.to_string();
+        }
+        seen += n;
+    }
+    String::new()
+}
+
+/// reduce a "token<parent<grandparent<..." chain to a stable class: the nearest doc-tag node, else the first node
+fn reduce_ctx(chain: &str) -> String {
+    let parts: Vec<&str> = chain.split('<').collect();
+    if let Some(tag) = parts.iter().skip(1).find(|p| p.starts_with("DocTag")) {
+        return tag.to_string();
+    }
+    match parts.get(1) {
+        Some(node) if *node == "Comment" || *node == "DocDescription" => format!("{}/{}", node, parts[0]),
+        Some(node) => node.to_string(),
+        None => chain.to_string(),
+    }
+}
+
+/// DocTagParam, DocTagClass, ... -> DocTag; TypeBinary, TypeName, ... -> Type
+fn kind_class(k: &str) -> &str {
+    if k.starts_with("DocTag") {
+        "DocTag"
+    } else if k.starts_with("Type") {
+        "Type"
+    } else {
+        k
+    }
+}
+
+/// an error message with quoted parts and numbers removed (messages are fixed strings with holes)
+fn msg_class(msg: &str) -> String {
+    let mut out = String::new();
+    let mut in_q = false;
+    for c in msg.chars() {
+        if c == '\'' || c == '`' {
+            in_q = !in_q;
+            continue;
+        }
+        if in_q || c.is_ascii_digit() {
+            continue;
+        }
+        out.push(if c == ' ' { '-' } else { c });
+    }
+    out.chars().take(60).collect()
+}
+
+/// output and source have the same characters (up to blanks and the characters the enabled normalisations may
+/// add or drop) but different tokens: two tokens were glued together or one was split
+fn glued_tokens(text: &str, o1: &str, t1: &[CTok], t2: &[CTok]) -> Option<String> {
+    if nonblank(text) != nonblank(o1) {
+        return None;
+    }
+    let i = t1.iter().zip(t2.iter()).take_while(|(a, b)| a.text == b.text).count();
+    let a = t1.get(i).map(|t| t.kind.clone()).unwrap_or("end".into());
+    let b = t1.get(i + 1).map(|t| t.kind.clone()).unwrap_or("end".into());
+    Some(format!("glued-tokens:{a}+{b}"))
+}
+
+/// how the second pass differs from the first: characters changed, line breaks moved, only indentation, only spacing
+fn idem_how(o1: &str, o2: &str) -> &'static str {
+    if nonblank(o1) != nonblank(o2) {
+        return "content";
+    }
+    let squash = |l: &str| -> String { l.split_whitespace().collect::<Vec<_>>().join(" ") };
+    let l1: Vec<&str> = o1.lines().collect();
+    let l2: Vec<&str> = o2.lines().collect();
+    let s1: Vec<String> = l1.iter().map(|l| squash(l)).filter(|l| !l.is_empty()).collect();
+    let s2: Vec<String> = l2.iter().map(|l| squash(l)).filter(|l| !l.is_empty()).collect();
+    if s1 != s2 {
+        return "line-breaks";
+    }
+    if l1.len() != l2.len() {
+        return "blank-lines";
+    }
+    if l1.iter().zip(l2.iter()).all(|(a, b)| a.trim_start() == b.trim_start()) {
+        return "indent";
+    }
+    "spacing"
+}
+
+fn idem_where(chain: &str) -> &'static str {
+    let parts: Vec<&str> = chain.split('<').collect();
+    if parts.iter().skip(1).any(|p| p.starts_with("DocTag")) {
+        "doc-tag"
+    } else if parts.iter().skip(1).any(|p| *p == "Comment") {
+        "comment"
+    } else {
+        "code"
+    }
+}
+
+fn first_diff_line(a: &str, b: &str) -> (String, String) {
+    let la: Vec<&str> = a.lines().collect();
+    let lb: Vec<&str> = b.lines().collect();
+    for i in 0..la.len().max(lb.len()) {
+        let x = la.get(i).copied().unwrap_or("<eof>");
+        let y = lb.get(i).copied().unwrap_or("<eof>");
+        if x != y {
+            return (x.to_string(), y.to_string());
+        }
+    }
+    (String::new(), String::new())
+}
+
+/// token kind < parent kinds at the k-th non-blank character of a comment's text
+fn comment_context(raw: &str, k: usize) -> String {
+    let mut seen = 0usize;
+    let mut off = raw.len();
+    for (i, c) in raw.char_indices() {
+        if !is_blank(c) {
+            if seen == k {
+                off = i;
+                break;
+            }
+            seen += 1;
+        }
+    }
+    let t = parse(raw);
+    context_at(&t, off)
+}
+
+/// delta-debugging: remove pieces while the violation with this signature stays (an input that no longer
+/// parses has no violation of that signature, so validity is kept automatically)
+fn ddmin(mut pieces: Vec<String>, still: &dyn Fn(&[String]) -> bool, budget: &mut usize) -> Vec<String> {
+    let mut chunk = (pieces.len() / 2).max(1);
+    loop {
+        let mut i = 0;
+        let mut progressed = false;
+        while i < pieces.len() && *budget > 0 {
+            let end = (i + chunk).min(pieces.len());
+            let mut cand = pieces.clone();
+            cand.drain(i..end);
+            *budget -= 1;
+            if !cand.is_empty() && still(&cand) {
+                pieces = cand;
+                progressed = true;
+            } else {
+                i += chunk;
+            }
+        }
+        if *budget == 0 || (chunk == 1 && !progressed) {
+            break;
+        }
+        if !progressed {
+            chunk = (chunk / 2).max(1);
+        }
+    }
+    pieces
+}
+
+/// words with their trailing whitespace
+fn split_words(text: &str) -> Vec<String> {
+    let mut out = Vec::new();
+    let mut cur = String::new();
+    let mut in_ws = false;
+    for c in text.chars() {
+        let ws = c == ' ' || c == '\t' || c == '\n' || c == '\r';
+        if in_ws && !ws {
+            out.push(std::mem::take(&mut cur));
+        }
+        cur.push(c);
+        in_ws = ws;
+    }
+    if !cur.is_empty() {
+        out.push(cur);
+    }
+    out
+}
+
+fn shrink(text: &str, cfg: &LuaFormatConfig, sig: &str, want: &str) -> String {
+    let still = |ls: &[String]| -> bool {
+        let t: String = ls.concat();
+        check(&t, cfg, want).0.iter().any(|v| v.signature == sig)
+    };
+    let mut budget = 1500usize;
+    let lines: Vec<String> = text.split_inclusive('\n').map(|s| s.to_string()).collect();
+    let lines = ddmin(lines, &still, &mut budget);
+    let words = split_words(&lines.concat());
+    let words = ddmin(words, &still, &mut budget);
+    words.concat()
+}
+
+// ------------------------------------------------------------------------------------------ IR generator
+
+fn gen_atom_text(rng: &mut Rng) -> String {
+    const T: &[&str] = &[
+        "a", "local", "x", "=", "1", "foo", "(", ")", ",", "{", "}", "end", "function", "-- c", "--- doc text", "é", "日本",
+        "with space", "trail ", "  lead", "multi\nline", "x\n", "\ttab", "", "", "longer_identifier_name", "\"str ing\"", "a\r\nb",
+    ];
+    rng.pick(T).to_string()
+}
+
+fn jstr(s: &str) -> String {
+    serde_json::to_string(s).unwrap()
+}
+
+fn gen_docs(rng: &mut Rng, depth: usize, n: usize, out: &mut String) {
+    for i in 0..n {
+        if i > 0 {
+            out.push(' ');
+        }
+        gen_doc(rng, depth, out);
+    }
+}
+
+fn gen_id(rng: &mut Rng) -> String {
+    if rng.chance(1, 2) { "-".to_string() } else { rng.below(4).to_string() }
+}
+
+fn gen_opt(rng: &mut Rng, depth: usize, out: &mut String) {
+    if rng.chance(1, 2) {
+        out.push('-');
+    } else {
+        out.push('(');
+        let n = rng.below(3);
+        gen_docs(rng, depth, n, out);
+        out.push(')');
+    }
+}
+
+fn gen_doc(rng: &mut Rng, depth: usize, out: &mut String) {
+    let leaf = depth >= 4 || rng.chance(2, 5);
+    if leaf {
+        match rng.below(12) {
+            0..=4 => {
+                let tag = *rng.pick(&["T", "T", "N", "K", "S"]);
+                out.push_str(&format!("({} {})", tag, jstr(&gen_atom_text(rng))));
+            }
+            5 | 6 => out.push_str("SP"),
+            7 | 8 => out.push_str("SL"),
+            9 => out.push_str("SE"),
+            _ => out.push_str("HL"),
+        }
+        return;
+    }
+    let n = rng.below(5);
+    match rng.below(14) {
+        0 | 1 => {
+            out.push_str("(I ");
+            gen_docs(rng, depth + 1, n, out);
+            out.push(')');
+        }
+        2..=5 => {
+            out.push_str(&format!("(G {} {} ", if rng.chance(1, 5) { 1 } else { 0 }, gen_id(rng)));
+            gen_docs(rng, depth + 1, n, out);
+            out.push(')');
+        }
+        6 => {
+            out.push_str("(L ");
+            gen_docs(rng, depth + 1, n, out);
+            out.push(')');
+        }
+        7 | 8 => {
+            out.push_str(&format!("(IB {} ", gen_id(rng)));
+            gen_doc(rng, depth + 1, out);
+            out.push(' ');
+            gen_doc(rng, depth + 1, out);
+            out.push(')');
+        }
+        9 | 10 => {
+            out.push_str("(F ");
+            gen_docs(rng, depth + 1, n, out);
+            out.push(')');
+        }
+        11 => {
+            out.push_str("(LS ");
+            gen_docs(rng, depth + 2, n.min(3), out);
+            out.push(')');
+        }
+        _ => {
+            out.push_str("(AG");
+            let k = rng.below(4);
+            for _ in 0..k {
+                if rng.chance(2, 3) {
+                    out.push_str(" (A (");
+                    let a = rng.below(3);
+                    gen_docs(rng, depth + 2, a, out);
+                    out.push_str(") (");
+                    let b = rng.below(3);
+                    gen_docs(rng, depth + 2, b, out);
+                    out.push_str(") ");
+                    gen_opt(rng, depth + 2, out);
+                    out.push(')');
+                } else {
+                    out.push_str(" (R (");
+                    let a = rng.below(3);
+                    gen_docs(rng, depth + 2, a, out);
+                    out.push_str(") ");
+                    gen_opt(rng, depth + 2, out);
+                    out.push(')');
+                }
+            }
+            out.push(')');
+        }
+    }
+}
+
+fn gen_printer_cfg(rng: &mut Rng) -> Value {
+    json!({
+        "indent": {"kind": *rng.pick(&["Space", "Space", "Tab"]), "width": *rng.pick(&[0usize, 1, 2, 4, 4, 8])},
+        "layout": {"max_line_width": *rng.pick(&[0usize, 5, 10, 15, 20, 30, 40, 80, 120])},
+        "output": {"end_of_line": *rng.pick(&["LF", "LF", "CRLF"])},
+        "comments": {"line_comment_min_spaces_before": rng.below(4), "line_comment_min_column": *rng.pick(&[0usize, 0, 10, 30])},
+    })
+}
+
+// ------------------------------------------------------------------------------------------ inputs
+
+struct Input {
+    origin: &'static str,
+    name: String,
+    text: String,
+    cfg: Value,
+}
+
+fn inputs(rng: &mut Rng, n: usize, maxstat: usize) -> Vec<Input> {
+    let mut v = Vec::new();
+    let mut pre: Vec<Input> = Vec::new();
+    let stds = std_files();
+    // corpus first: witnesses of known findings with their own configuration, then plain files
+    for prop in ["C05", "C06"] {
+        for (name, v) in corpus_json(prop) {
+            if let Some(t) = v.get("text").and_then(|t| t.as_str()) {
+                pre.push(Input { origin: "corpus", name, text: t.to_string(), cfg: v.get("cfg").cloned().unwrap_or(json!({})) });
+            }
+        }
+    }
+    v.append(&mut pre);
+    for (name, text) in corpus_files("C05").into_iter().chain(corpus_files("C06")) {
+        v.push(Input { origin: "corpus", name: name.clone(), text: text.clone(), cfg: json!({}) });
+        v.push(Input { origin: "corpus", name, text, cfg: gen_cfg(rng) });
+    }
+    // bundled std annotations: default config always, plus generated configs
+    for (name, text) in &stds {
+        v.push(Input { origin: "std", name: name.clone(), text: text.clone(), cfg: json!({}) });
+    }
+    let mut i = 0usize;
+    let base = v.len();
+    while v.len() < base + n + stds.len() {
+        i += 1;
+        let cfg = gen_cfg(rng);
+        match i % 8 {
+            0 if !stds.is_empty() => {
+                let (name, text) = &stds[rng.below(stds.len())];
+                v.push(Input { origin: "std-cfg", name: name.clone(), text: text.clone(), cfg });
+            }
+            1 | 2 | 3 if !stds.is_empty() => {
+                let (name, text) = &stds[rng.below(stds.len())];
+                let t = mutate(rng, text);
+                v.push(Input { origin: "mutated", name: name.clone(), text: t, cfg });
+            }
+            _ => {
+                let t = gen_program(rng, maxstat);
+                v.push(Input { origin: "generated", name: format!("gen{i}"), text: t, cfg });
+            }
+        }
+    }
+    v
+}
+
+fn case_json(inp: &Input) -> Value {
+    json!({"origin": inp.origin, "name": inp.name, "text": inp.text, "cfg": inp.cfg})
+}
+
 fn main() {
-    let a: Vec<String> = std::env::args().collect();
-    let text = std::fs::read_to_string(&a[1]).unwrap();
-    let cfg = LuaFormatConfig::default();
-    let tree = LuaParser::parse(&text, ParserConfig::with_level(LuaLanguageLevel::Lua55));
-    if a.len() > 2 { println!("{:#?}", tree.get_red_root()); }
-    let o1 = reformat_lua_code(&SourceText { text: &text, level: LuaLanguageLevel::Lua55 }, &cfg);
-    let o2 = reformat_lua_code(&SourceText { text: &o1, level: LuaLanguageLevel::Lua55 }, &cfg);
-    println!("---1\n{}---2\n{}", o1, o2);
+    let args = Args::parse();
+    let seed = args.u64("seed", 1);
+    let n = args.usize("n", 100);
+    let mut rng = Rng::new(seed ^ 0xC05);
+    match args.cmd.as_str() {
+        "corr" => {
+            let ngen = args.usize("ngen", 100);
+            let maxir = args.usize("maxir", 40000);
+            let maxstat = args.usize("maxstat", 6);
+            let mut emitted = 0usize;
+            let mut skipped_big = 0usize;
+            let mut skipped_err = 0usize;
+            let mut ins = Vec::new();
+            for (name, text) in corpus_files("C05") {
+                ins.push(Input { origin: "corpus", name: name.clone(), text: text.clone(), cfg: json!({}) });
+                ins.push(Input { origin: "corpus", name, text, cfg: gen_cfg(&mut rng) });
+            }
+            let stds = std_files();
+            let mut i = 0;
+            while emitted < n && i < n * 6 {
+                i += 1;
+                let inp = if let Some(x) = ins.pop() {
+                    x
+                } else {
+                    let cfg = gen_cfg(&mut rng);
+                    match i % 5 {
+                        0 if !stds.is_empty() => {
+                            // a window of a real file
+                            let (name, text) = &stds[rng.below(stds.len())];
+                            let lines: Vec<&str> = text.split_inclusive('\n').collect();
+                            let len = 5 + rng.below(40);
+                            let start = rng.below(lines.len().saturating_sub(len).max(1));
+                            let t: String = lines[start..(start + len).min(lines.len())].concat();
+                            Input { origin: "std-window", name: name.clone(), text: t, cfg }
+                        }
+                        1 if !stds.is_empty() => {
+                            let (name, text) = &stds[rng.below(stds.len())];
+                            Input { origin: "mutated", name: name.clone(), text: mutate(&mut rng, text), cfg }
+                        }
+                        _ => Input { origin: "generated", name: format!("gen{i}"), text: gen_program(&mut rng, maxstat), cfg },
+                    }
+                };
+                let cfg = cfg_from_json(&inp.cfg);
+                let src = SourceText { text: &inp.text, level: LEVEL };
+                let ir = match guarded(|| verif::dump_ir(&src, &cfg)) {
+                    Ok(Some(ir)) => ir,
+                    _ => {
+                        skipped_err += 1;
+                        continue;
+                    }
+                };
+                if ir.len() > maxir {
+                    skipped_big += 1;
+                    continue;
+                }
+                let Ok(out) = fmt(&inp.text, &cfg) else { continue };
+                let flags = NormFlags::of(&cfg);
+                println!(
+                    "{}",
+                    json!({"kind": "real", "origin": inp.origin, "name": inp.name, "src": inp.text, "pcfg": printer_cfg(&cfg), "ir": ir, "out": out,
+                           "norm": {"semi": flags.drop_semicolons, "quotes": flags.string_by_value, "parens": flags.drop_single_arg_parens},
+                           "cfg": inp.cfg})
+                );
+                emitted += 1;
+            }
+            for _ in 0..ngen {
+                let cfgj = gen_printer_cfg(&mut rng);
+                let cfg = cfg_from_json(&cfgj);
+                let mut ir = String::from("(");
+                let k = 1 + rng.below(5);
+                gen_docs(&mut rng, 0, k, &mut ir);
+                ir.push(')');
+                match guarded(|| verif::print_ir(&ir, &cfg)) {
+                    Ok(Ok(out)) => println!("{}", json!({"kind": "gen", "pcfg": printer_cfg(&cfg), "ir": ir, "out": out})),
+                    Ok(Err(e)) => println!("{}", json!({"kind": "gen-error", "ir": ir, "error": e})),
+                    Err(e) => println!("{}", json!({"kind": "gen-panic", "pcfg": printer_cfg(&cfg), "ir": ir, "error": e})),
+                }
+            }
+            eprintln!("corr: real={emitted} skipped_big={skipped_big} skipped_syntax_error={skipped_err} gen={ngen}");
+        }
+        "search" => {
+            let want = args.str("prop", "both");
+            let maxstat = args.usize("maxstat", 12);
+            let ins = inputs(&mut rng, n, maxstat);
+            let mut dist: BTreeMap<String, usize> = BTreeMap::new();
+            let mut distinct = HashSet::new();
+            let mut valid_n = 0usize;
+            let mut reported: HashSet<String> = HashSet::new();
+            let mut nviol = 0usize;
+            for inp in &ins {
+                let cfg = cfg_from_json(&inp.cfg);
+                let (viols, valid) = check(&inp.text, &cfg, &want);
+                *dist.entry(format!("{}{}", inp.origin, if valid { "" } else { "-syntax-error" })).or_default() += 1;
+                if valid {
+                    valid_n += 1;
+                }
+                if inp.text.len() > 20 {
+                    distinct.insert((inp.text.clone(), inp.cfg.to_string()));
+                }
+                for v in viols {
+                    if want != "both" && v.prop != want {
+                        continue;
+                    }
+                    nviol += 1;
+                    if !reported.insert(format!("{}|{}", v.prop, v.signature)) {
+                        continue; // one (shrunk) witness per signature
+                    }
+                    let small = shrink(&inp.text, &cfg, &v.signature, &want);
+                    let (v2, _) = check(&small, &cfg, &want);
+                    let what = v2.iter().find(|x| x.signature == v.signature).map(|x| x.what.clone()).unwrap_or(v.what.clone());
+                    println!(
+                        "{}",
+                        json!({"prop": v.prop, "signature": v.signature, "what": what, "origin": inp.origin, "name": inp.name,
+                               "text": small, "cfg": inp.cfg, "full_len": inp.text.len()})
+                    );
+                }
+            }
+            println!(
+                "{}",
+                json!({"summary": {"cases": ins.len(), "valid": valid_n, "distinct_nontrivial": distinct.len(),
+                                   "violating_cases": nviol, "by_origin": dist}})
+            );
+        }
+        "one" => {
+            let text = std::fs::read_to_string(args.str("file", "")).unwrap_or_default();
+            let cfgj: Value = serde_json::from_str(&args.str("cfg", "{}")).unwrap_or(json!({}));
+            let cfg = cfg_from_json(&cfgj);
+            let want = args.str("prop", "both");
+            let (viols, valid) = check(&text, &cfg, &want);
+            let o1 = fmt(&text, &cfg).unwrap_or_else(|e| format!("<panic {e}>"));
+            let o2 = fmt(&o1, &cfg).unwrap_or_else(|e| format!("<panic {e}>"));
+            println!("{}", json!({"valid": valid, "out": o1, "pass2_same": o1 == o2, "case": case_json(&Input{origin:"one", name:"one".into(), text: text.clone(), cfg: cfgj.clone()})}));
+            for v in viols {
+                println!("{}", json!({"prop": v.prop, "signature": v.signature, "what": v.what, "text": text, "cfg": cfgj}));
+            }
+            if args.flag("show") {
+                eprintln!("--- pass 1\n{o1}--- pass 2\n{o2}");
+            }
+        }
+        "align" => {
+            // doc blocks whose columns are known by construction; the formatted block is the observation (C06 tie)
+            for _ in 0..n {
+                let k = 2 + rng.below(4);
+                let tag = *rng.pick(&["param", "field"]);
+                let mut rows: Vec<Vec<String>> = Vec::new();
+                for j in 0..k {
+                    let name = format!("{}{}", rng.pick(&["a", "bb", "ccc", "long_name", "x_y"]), j);
+                    let ty = rng.pick(&["string", "integer", "table<string, integer>", "fun(a: integer): string", "Foo[]", "A | B"]).to_string();
+                    let mut row = vec![tag.to_string(), name, ty];
+                    if rng.chance(1, 2) {
+                        row.push(format!("{} {}", rng.pick(&["the", "some", "a"]), rng.pick(&["value", "thing to use", "x"])));
+                    }
+                    rows.push(row);
+                }
+                let mut text = String::new();
+                if tag == "field" {
+                    text.push_str("---@class K\n");
+                }
+                for r in &rows {
+                    let gap = |rng: &mut Rng| " ".repeat(1 + rng.below(3));
+                    text.push_str("---@");
+                    text.push_str(&r[0]);
+                    for c in &r[1..] {
+                        text.push_str(&gap(&mut rng));
+                        text.push_str(c);
+                    }
+                    text.push('\n');
+                }
+                text.push_str(if tag == "field" { "local K = {}\n" } else { "function f() end\n" });
+                let cfg = LuaFormatConfig::default();
+                let Ok(out) = fmt(&text, &cfg) else { continue };
+                let lines: Vec<&str> = out.lines().filter(|l| l.starts_with(&format!("---@{tag}"))).collect();
+                let out2 = fmt(&out, &cfg).unwrap_or_default();
+                println!("{}", json!({"rows": rows, "lines": lines, "idempotent": out2 == out, "text": text}));
+            }
+        }
+        _ => {
+            eprintln!("usage: c05 corr|search|one|align");
+            std::process::exit(2);
+        }
+    }
 }
